@@ -422,4 +422,268 @@ theorem commitThread_obs {s : St} {p : ProcC} (tid : Nat) (r : ThreadC × List U
       · rw [tq_putThread]; rfl
   · rfl
 
+/-! ### one record -/
+
+theorem keys_of_inv {s : St} (h : InvA s) : ∀ k p, alGet s.procs k = some p → p.pid = k :=
+  fun _ _ hg => (h.get hg).1
+
+/-- what `Processes::remove` parks -/
+def park (o : PObs) (pid : Nat) : List (List USample × List (Nat × MapAdd) × Nat) :=
+  if o.samples.isEmpty then [] else [(o.samples, o.mapq, pid)]
+
+/-- SAMPLE (after the duplicate check), SWITCH and sched_switch records: the thread bound to (pid, tid) — looked
+up on demand — is handed to `f`; its triple is replaced by the result's and the emitted samples are appended to
+the buffer of `pid`; nothing else changes -/
+theorem obs_commit {s : St} (hinv : InvA s) (pid tid : Nat) (f : St → ThreadC → ThreadC × List USample × Bool) :
+    (getThread (getByPid s pid).1 (getByPid s pid).2 tid).1.cfg = s.cfg ∧
+    tqOf (getThread (getByPid s pid).1 (getByPid s pid).2 tid).2.2 = (pobs s.procs pid).thr tid ∧
+    Same s (getThread (getByPid s pid).1 (getByPid s pid).2 tid).1 ∧
+    (∀ a, pobs (commitThread (getThread (getByPid s pid).1 (getByPid s pid).2 tid).1
+          (getThread (getByPid s pid).1 (getByPid s pid).2 tid).2.1 tid
+          (f (getThread (getByPid s pid).1 (getByPid s pid).2 tid).1
+             (getThread (getByPid s pid).1 (getByPid s pid).2 tid).2.2)).procs a =
+      upd (pobs s.procs) pid
+        { (pobs s.procs pid).setThr tid (tqOf (f (getThread (getByPid s pid).1 (getByPid s pid).2 tid).1
+             (getThread (getByPid s pid).1 (getByPid s pid).2 tid).2.2).1) with
+          samples := (pobs s.procs pid).samples ++
+            (f (getThread (getByPid s pid).1 (getByPid s pid).2 tid).1
+               (getThread (getByPid s pid).1 (getByPid s pid).2 tid).2.2).2.1 } a) ∧
+    (commitThread (getThread (getByPid s pid).1 (getByPid s pid).2 tid).1
+          (getThread (getByPid s pid).1 (getByPid s pid).2 tid).2.1 tid
+          (f (getThread (getByPid s pid).1 (getByPid s pid).2 tid).1
+             (getThread (getByPid s pid).1 (getByPid s pid).2 tid).2.2)).parked = s.parked ∧
+    (commitThread (getThread (getByPid s pid).1 (getByPid s pid).2 tid).1
+          (getThread (getByPid s pid).1 (getByPid s pid).2 tid).2.1 tid
+          (f (getThread (getByPid s pid).1 (getByPid s pid).2 tid).1
+             (getThread (getByPid s pid).1 (getByPid s pid).2 tid).2.2)).cfg = s.cfg ∧
+    (commitThread (getThread (getByPid s pid).1 (getByPid s pid).2 tid).1
+          (getThread (getByPid s pid).1 (getByPid s pid).2 tid).2.1 tid
+          (f (getThread (getByPid s pid).1 (getByPid s pid).2 tid).1
+             (getThread (getByPid s pid).1 (getByPid s pid).2 tid).2.2)).bad =
+      (s.bad || !(f (getThread (getByPid s pid).1 (getByPid s pid).2 tid).1
+             (getThread (getByPid s pid).1 (getByPid s pid).2 tid).2.2).2.2) := by
+  obtain ⟨sm1, hg1⟩ := getByPid_same s pid
+  obtain ⟨g1, _⟩ := getByPid_spec hinv (show getByPid s pid = (_, _) from rfl)
+  have hpid1 : (getByPid s pid).2.pid = pid := (g1.inv.get hg1).1
+  have hp1 : alGet (getByPid s pid).1.procs (getByPid s pid).2.pid = some (getByPid s pid).2 := by
+    rw [hpid1]; exact hg1
+  obtain ⟨sm2, hg2, hpid2, _, htq, hob⟩ := getThread_same tid hp1
+  generalize getByPid s pid = gb at *
+  obtain ⟨s1, p1⟩ := gb
+  generalize getThread s1 p1 tid = gt at *
+  obtain ⟨s2, p2, th⟩ := gt
+  simp only at *
+  have hp2 : alGet s2.procs p2.pid = some p2 := by rw [hpid2]; exact hg2
+  obtain ⟨c1, c2, c3, c4⟩ := commitThread_obs tid (f s2 th) hp2
+  have hP : pobsP p2 = pobs s.procs pid := by
+    rw [hob, ← pobs_of_get hp1, hpid1, sm1.obs]
+  refine ⟨sm2.cfg.trans sm1.cfg, ?_, sm1.trans sm2, ?_, ?_, ?_, ?_⟩
+  · rw [htq, ← hP, hob]; rfl
+  · intro a
+    rw [c1 a, hpid2, hpid1]
+    unfold upd
+    split
+    · rw [hP]
+      refine PObs.ext' rfl ?_ (fun _ => rfl)
+      show p2.samples ++ _ = (pobs s.procs pid).samples ++ _
+      rw [← hP]; rfl
+    · rw [sm2.obs, sm1.obs]
+  · rw [c2, sm2.parked, sm1.parked]
+  · rw [c3, sm2.cfg, sm1.cfg]
+  · rw [c4, sm2.bad, sm1.bad]
+
+/-- EXIT -/
+theorem obs_exit {s : St} (hinv : InvA s) (hr : s.cfg.reuse = false) (pid tid t : Nat) :
+    (∀ a, pobs (step s (.exit pid tid t)).procs a =
+      if pid = tid then upd (pobs s.procs) pid PObs.empty a
+      else upd (pobs s.procs) pid ((pobs s.procs pid).setThr tid tqFresh) a) ∧
+    (step s (.exit pid tid t)).parked = (if pid = tid then s.parked ++ park (pobs s.procs pid) pid else s.parked) ∧
+    (step s (.exit pid tid t)).cfg = s.cfg ∧ (step s (.exit pid tid t)).bad = s.bad := by
+  rw [LifeL.step_exit]
+  by_cases hpt : pid = tid
+  · simp only [hpt, if_true]
+    obtain ⟨a1, a2, a3, a4, _⟩ := removeProc_obs hr (keys_of_inv hinv) tid (conv s t)
+    exact ⟨a1, a2, a3, a4⟩
+  · simp only [hpt, if_false]
+    cases hb : alGet s.procs pid with
+    | none =>
+      dsimp only
+      refine ⟨fun a => ?_, rfl, rfl, rfl⟩
+      unfold upd
+      split
+      · next ha => rw [ha, pobs_of_none hb, setThr_empty_fresh]
+      · rfl
+    | some p =>
+      dsimp only
+      have hpid := keys_of_inv hinv pid p hb
+      have hp : alGet s.procs p.pid = some p := by rw [hpid]; exact hb
+      obtain ⟨a1, a2, a3, a4, _⟩ := removeThread_obs (tid := tid) (conv s t) hp (by rw [hpid]; exact fun e => hpt e.symm)
+      refine ⟨fun a => ?_, a2, a3, a4⟩
+      rw [a1 a, hpid, ← pobs_of_get hb]
+      rfl
+
+/-- COMM -/
+theorem obs_comm {s : St} (hinv : InvA s) (hr : s.cfg.reuse = false) (pid tid : Nat) (name : String)
+    (isExec : Bool) (t : Nat) :
+    (∀ a, pobs (step s (.comm pid tid name isExec t)).procs a =
+      if isExec then
+        (if pid = tid then upd (pobs s.procs) pid PObs.empty a
+         else upd (pobs s.procs) pid ((pobs s.procs pid).setThr tid tqFresh) a)
+      else pobs s.procs a) ∧
+    (step s (.comm pid tid name isExec t)).parked =
+      (if isExec && decide (pid = tid) then s.parked ++ park (pobs s.procs pid) pid else s.parked) ∧
+    (step s (.comm pid tid name isExec t)).cfg = s.cfg ∧ (step s (.comm pid tid name isExec t)).bad = s.bad := by
+  rw [LifeL.step_comm]
+  generalize conv s (if t = 0 then s.cur else t) = time
+  cases isExec with
+  | true =>
+    simp only [if_true, Bool.true_and]
+    by_cases hpt : pid = tid
+    · simp only [hpt, if_true, decide_true]
+      obtain ⟨a1, a2, a3, a4, _⟩ := removeProc_obs hr (keys_of_inv hinv) tid time
+      obtain ⟨sm, _⟩ := getNewProc_same (s := removeProc s tid time) (by rw [a3]; exact hr) tid (some name) time
+      exact ⟨fun a => (sm.obs a).trans (a1 a), sm.parked.trans a2, sm.cfg.trans a3, sm.bad.trans a4⟩
+    · simp only [hpt, if_false, decide_false]
+      obtain ⟨sm1, hg1⟩ := getByPid_same s pid
+      obtain ⟨g1, _⟩ := getByPid_spec hinv (show getByPid s pid = (_, _) from rfl)
+      have hpid1 : (getByPid s pid).2.pid = pid := (g1.inv.get hg1).1
+      have hp1 : alGet (getByPid s pid).1.procs (getByPid s pid).2.pid = some (getByPid s pid).2 := by
+        rw [hpid1]; exact hg1
+      obtain ⟨a1, a2, a3, a4, a5, a6, _⟩ := removeThread_obs (tid := tid) time hp1
+        (by rw [hpid1]; exact fun e => hpt e.symm)
+      have sm3 := getNewThread_same (s := (removeThread (getByPid s pid).1 (getByPid s pid).2 tid time).1)
+        (p := (removeThread (getByPid s pid).1 (getByPid s pid).2 tid time).2)
+        (by rw [a3, sm1.cfg]; exact hr) (by rw [a6]; exact a5) tid (some name) time
+      refine ⟨fun a => ?_, ?_, ?_, ?_⟩
+      · rw [sm3.obs, a1 a, hpid1, ← pobs_of_get hg1, sm1.obs]
+        unfold upd
+        split
+        · rfl
+        · exact sm1.obs a
+      · rw [sm3.parked, a2, sm1.parked]; simp
+      · rw [sm3.cfg, a3, sm1.cfg]
+      · rw [sm3.bad, a4, sm1.bad]
+  | false =>
+    simp only [Bool.false_eq_true, if_false, Bool.false_and]
+    have key : Same s (if pid = tid then renameProcess s pid time name
+        else renameThread (getByPid s pid).1 (getByPid s pid).2 tid time name) := by
+      split
+      · exact renameProcess_same hr (keys_of_inv hinv) pid time name
+      · obtain ⟨sm1, hg1⟩ := getByPid_same s pid
+        obtain ⟨g1, _⟩ := getByPid_spec hinv (show getByPid s pid = (_, _) from rfl)
+        have hpid1 : (getByPid s pid).2.pid = pid := (g1.inv.get hg1).1
+        exact sm1.trans (renameThread_same (by rw [sm1.cfg]; exact hr) (by rw [hpid1]; exact hg1) tid time name)
+    exact ⟨key.obs, key.parked, key.cfg, key.bad⟩
+
+/-- FORK -/
+theorem obs_fork {s : St} (hinv : InvA s) (hr : s.cfg.reuse = false) (pid tid ppid ptid t : Nat) :
+    (∀ a, pobs (step s (.fork pid tid ppid ptid t)).procs a =
+      if pid ≠ ppid then upd (pobs s.procs) pid { pobs s.procs pid with mapq := (pobs s.procs ppid).mapq } a
+      else pobs s.procs a) ∧
+    (step s (.fork pid tid ppid ptid t)).parked = s.parked ∧
+    (step s (.fork pid tid ppid ptid t)).cfg = s.cfg ∧ (step s (.fork pid tid ppid ptid t)).bad = s.bad := by
+  rw [LifeL.step_fork]
+  generalize conv s t = start
+  obtain ⟨sm1, hg1⟩ := getByPid_same s ppid
+  obtain ⟨g1, _⟩ := getByPid_spec hinv (show getByPid s ppid = (_, _) from rfl)
+  have hpid1 : (getByPid s ppid).2.pid = ppid := (g1.inv.get hg1).1
+  have hr1 : (getByPid s ppid).1.cfg.reuse = false := by rw [sm1.cfg]; exact hr
+  by_cases hpp : pid ≠ ppid
+  · simp only [hpp, ne_eq, not_false_eq_true, if_true]
+    obtain ⟨sm2, hg2, hob2⟩ := getNewProc_same hr1 pid (getByPid s ppid).2.name start
+    obtain ⟨g2, _⟩ := getNewProc_spec g1.inv
+      (show getNewProc (getByPid s ppid).1 pid (getByPid s ppid).2.name start = (_, _) from rfl)
+    have hcpid : (getNewProc (getByPid s ppid).1 pid (getByPid s ppid).2.name start).2.pid = pid := (g2.inv.get hg2).1
+    refine ⟨fun a => ?_, sm2.parked.trans sm1.parked, sm2.cfg.trans sm1.cfg, sm2.bad.trans sm1.bad⟩
+    show pobs (alPut _ _ _) a = _
+    rw [pobs_alPut]
+    show (if a = (getNewProc (getByPid s ppid).1 pid (getByPid s ppid).2.name start).2.pid then _ else _) = _
+    rw [hcpid]
+    unfold upd
+    split
+    · have e1 : (getByPid s ppid).2.mapq = (pobs s.procs ppid).mapq := by
+        rw [← sm1.obs, pobs_of_get hg1]; rfl
+      have e2 := hob2
+      rw [sm1.obs] at e2
+      refine PObs.ext' e1 ?_ (fun b => ?_)
+      · show (getNewProc (getByPid s ppid).1 pid (getByPid s ppid).2.name start).2.samples = _
+        rw [← e2]; rfl
+      · show tq _ b = _
+        rw [← e2]
+        refine tq_congr (p := (getNewProc (getByPid s ppid).1 pid (getByPid s ppid).2.name start).2) ?_ ?_ ?_ b
+        · exact hcpid.symm
+        · rfl
+        · rfl
+    · rw [sm2.obs, sm1.obs]
+  · simp only [hpp, if_false]
+    have hp1 : alGet (getByPid s ppid).1.procs (getByPid s ppid).2.pid = some (getByPid s ppid).2 := by
+      rw [hpid1]; exact hg1
+    obtain ⟨sm2, hg2, hpid2, _, _, _⟩ := getThread_same ptid hp1
+    have sm3 := getNewThread_same (s := (getThread (getByPid s ppid).1 (getByPid s ppid).2 ptid).1)
+      (p := (getThread (getByPid s ppid).1 (getByPid s ppid).2 ptid).2.1)
+      (by rw [sm2.cfg]; exact hr1) (by rw [hpid2]; exact hg2) tid
+      (getThread (getByPid s ppid).1 (getByPid s ppid).2 ptid).2.2.name start
+    have sm := (sm1.trans sm2).trans sm3
+    exact ⟨sm.obs, sm.parked, sm.cfg, sm.bad⟩
+
+/-- MMAP2 -/
+theorem obs_mmap2 {s : St} (hinv : InvA s) (pid tid addr len pgoff : Nat) (exec : Bool) (path : String) (t : Nat) :
+    (∀ a, pobs (step s (.mmap2 pid tid addr len pgoff exec path t)).procs a =
+      if exec && !specialPath path then
+        upd (pobs s.procs) pid
+          { pobs s.procs pid with mapq := (pobs s.procs pid).mapq ++ mapOps s.cfg addr len pgoff path t } a
+      else pobs s.procs a) ∧
+    (step s (.mmap2 pid tid addr len pgoff exec path t)).parked = s.parked ∧
+    (step s (.mmap2 pid tid addr len pgoff exec path t)).cfg = s.cfg ∧
+    (step s (.mmap2 pid tid addr len pgoff exec path t)).bad = s.bad := by
+  rw [LifeL.step_mmap2]
+  have hA : ∃ sA, sA = (if s.cur = s.cfg.ref || path.isEmpty then s
+      else (getThread (getByPid s pid).1 (getByPid s pid).2 tid).1) ∧ Same s sA ∧ InvA sA := by
+    refine ⟨_, rfl, ?_⟩
+    split
+    · exact ⟨Same.refl s, hinv⟩
+    · obtain ⟨sm1, hg1⟩ := getByPid_same s pid
+      obtain ⟨g1, _⟩ := getByPid_spec hinv (show getByPid s pid = (_, _) from rfl)
+      have hpid1 : (getByPid s pid).2.pid = pid := (g1.inv.get hg1).1
+      have hp1 : alGet (getByPid s pid).1.procs (getByPid s pid).2.pid = some (getByPid s pid).2 := by
+        rw [hpid1]; exact hg1
+      obtain ⟨sm2, _⟩ := getThread_same tid hp1
+      obtain ⟨g2, _⟩ := getThread_spec g1.inv hp1
+        (show getThread (getByPid s pid).1 (getByPid s pid).2 tid = (_, _, _) from rfl)
+      exact ⟨sm1.trans sm2, g2.inv⟩
+  obtain ⟨sA, hsA, smA, invA⟩ := hA
+  simp only []
+  rw [← hsA]
+  cases exec with
+  | false => exact ⟨smA.obs, smA.parked, smA.cfg, smA.bad⟩
+  | true =>
+    cases hsp : specialPath path with
+    | true => simpa [hsp] using ⟨smA.obs, smA.parked, smA.cfg, smA.bad⟩
+    | false =>
+      simp only [Bool.not_true, Bool.false_eq_true, if_false, Bool.not_false, Bool.and_self, if_true]
+      obtain ⟨sm1, hg1⟩ := getByPid_same sA pid
+      obtain ⟨g1, _⟩ := getByPid_spec invA (show getByPid sA pid = (_, _) from rfl)
+      have hpid1 : (getByPid sA pid).2.pid = pid := (g1.inv.get hg1).1
+      refine ⟨fun a => ?_, sm1.parked.trans smA.parked, sm1.cfg.trans smA.cfg, sm1.bad.trans smA.bad⟩
+      show pobs (alPut _ _ _) a = _
+      rw [pobs_alPut]
+      show (if a = (getByPid sA pid).2.pid then _ else _) = _
+      rw [hpid1]
+      unfold upd
+      have e2 : pobsP (getByPid sA pid).2 = pobs s.procs pid := by
+        rw [← pobs_of_get hg1, sm1.obs, smA.obs]
+      split
+      · refine PObs.ext' ?_ ?_ (fun b => ?_)
+        · show (getByPid sA pid).2.mapq ++ mapOps (getByPid sA pid).1.cfg addr len pgoff path t = _
+          rw [sm1.cfg, smA.cfg, ← e2]; rfl
+        · show (getByPid sA pid).2.samples = _
+          rw [← e2]; rfl
+        · show tq _ b = _
+          rw [← e2]
+          refine tq_congr (p := (getByPid sA pid).2) ?_ ?_ ?_ b
+          · exact hpid1.symm
+          · rfl
+          · rfl
+      · rw [sm1.obs, smA.obs]
+
 end Conv
